@@ -2,10 +2,10 @@
 
 CHECK = {
     "harnesses": [
-        {"exe": "c08_dataset", "flavour": "plain", "cases": (12000, 1200000), "procs": (6, 12), "subs": ["views"]},
-        {"exe": "c08_dataset", "flavour": "asan", "cases": (2000, 200000), "procs": (2, 4), "subs": ["views"]},
+        {"exe": "c08_dataset", "flavour": "plain", "cases": (60000, 1200000), "procs": (6, 12), "subs": ["views"]},
+        {"exe": "c08_dataset", "flavour": "asan", "cases": (8000, 200000), "procs": (2, 4), "subs": ["views"]},
     ],
-    "min_nontrivial": (1500, 50000),
+    "min_nontrivial": (8000, 50000),
     "timeout": (900, 7200),
     "rule": ("rapidcheck-generated data sources (1..12 features over the 12 feature types, structured dims up to 3x3x3, 1..300 classes, "
              "1..200 samples incl. 7/8/9/63/64/65, missing masks none/random/all/first/last/all-but-one, target of any kind or none), "
